@@ -175,6 +175,19 @@ def mapUserNormalized (map : Map) (name email : Bytes) : Bytes × Bytes :=
       | none => { name := me.name, email := me.email }
     (mi.name.getD name, (mi.email.getD key))
 
+/-- EXACTLY when the normalisation is invisible: the address is not in the map, or the mapping that
+applies (by name if there is one, else the simple one) assigns an email, or the address is spelled
+as the stored key -/
+def emailKept (map : Map) (name email : Bytes) : Bool :=
+  match slLookup map email with
+  | none => true
+  | some (key, me) =>
+    let mi : Info :=
+      match slLookup me.namemap name with
+      | some (_, sub) => sub
+      | none => { name := me.name, email := me.email }
+    mi.email.isSome || key == email
+
 /-- the looked-up email is spelled exactly as the key stored for it (or is not in the map) -/
 def spellingExact (map : Map) (email : Bytes) : Bool :=
   match slLookup map email with
